@@ -549,3 +549,164 @@ func (p *Prog) fieldDisplay(fv *types.Var, info *types.Info, sel ast.Expr) strin
 }
 
 var _ = sort.Strings
+
+// ---------- R-GUARD/lockset: a field written under a mutex is accessed under one common mutex ----------
+
+// ruleLockset: the classic lockset discipline for fields the guard table does
+// not name. For every struct field of a module type that some function
+// *writes* with a mutex certainly held (so the author meant it to be guarded),
+// the sets of mutexes certainly held at all its accesses outside constructors
+// and the init phase - reads included, and those made with no mutex at all -
+// have a common element. A field appended to under one mutex and drained under
+// another is protected by neither.
+func ruleLockset(c *Ctx) {
+	p := c.P
+	type acc struct {
+		a    fieldAccess
+		held lockSet
+	}
+	byField := map[*types.Var][]acc{}
+	for _, f := range p.Funcs {
+		if !notTesting(p, f) {
+			continue
+		}
+		if _, init := p.initPhaseReason(f); init {
+			continue
+		}
+		info := f.Pkg.TypesInfo
+		fresh := freshLocals(p, f)
+		for _, a := range p.fieldAccesses(f, func(v *types.Var) bool {
+			return v.IsField() && v.Pkg() != nil && strings.HasPrefix(v.Pkg().Path(), modPath)
+		}) {
+			if a.node == nil {
+				continue
+			}
+			if rv := rootVar(info, a.sel); rv != nil && fresh[rv] {
+				continue // an object under construction
+			}
+			// the mutex fields themselves and channel operations are not data accesses
+			if t := a.fv.Type().String(); strings.HasPrefix(t, "sync.") {
+				continue
+			}
+			byField[a.fv] = append(byField[a.fv], acc{a, p.MustHeldAt(f, a.node)})
+		}
+	}
+	n, bad := 0, false
+	var fields []*types.Var
+	for fv := range byField {
+		fields = append(fields, fv)
+	}
+	sort.Slice(fields, func(i, j int) bool { return p.FieldName(fields[i]) < p.FieldName(fields[j]) })
+	for _, fv := range fields {
+		accs := byField[fv]
+		lockedWrite := false
+		nWrite := 0
+		for _, x := range accs {
+			if x.a.write {
+				nWrite++
+				if len(x.held) > 0 {
+					lockedWrite = true
+				}
+			}
+		}
+		if !lockedWrite || !ownerHasMutex(fv) {
+			continue
+		}
+		// only fields that are written after construction under a lock are judged
+		// here; the tabled ones are judged by R-GUARD with their reviewed exceptions
+		fn := p.FieldName(fv)
+		tabled := false
+		for _, gf := range guardedFields {
+			if gf == fn {
+				tabled = true
+			}
+		}
+		if tabled {
+			continue
+		}
+		n++
+		common := lockSet{}
+		first := true
+		var odd *acc
+		for i := range accs {
+			x := accs[i]
+			hs := lockSet{}
+			for v := range x.held {
+				if base := p.rshadowOf[v]; base != nil && !x.a.write {
+					hs[base] = true
+				} else {
+					hs[v] = true
+				}
+			}
+			if first {
+				common, first = hs, false
+				continue
+			}
+			next := lockSet{}
+			for v := range common {
+				if hs[v] {
+					next[v] = true
+				}
+			}
+			if len(next) == 0 && len(common) > 0 && odd == nil {
+				odd = &accs[i]
+			}
+			common = next
+		}
+		construct := "accesses of " + fn + " share a mutex"
+		if len(common) == 0 {
+			if _, ok := locksetExceptions[fn]; ok {
+				c.R.Except("R-GUARD/lockset", p.Pos(accs[0].a.sel), accs[0].a.f.Name, construct, locksetExceptions[fn])
+				continue
+			}
+			bad = true
+			where := accs[0]
+			if odd != nil {
+				where = *odd
+			}
+			c.R.Violate("R-GUARD/lockset", p.Pos(where.a.sel), where.a.f.Name, construct,
+				fn+" is written with a mutex held, but no single mutex is held at all of its accesses (here: {"+where.held.names(p)+"}): two goroutines that each hold \"a\" lock can still touch the field at the same time", nil)
+		} else {
+			c.R.Hold("R-GUARD/lockset", p.Pos(accs[0].a.sel), "", construct, fmt.Sprintf("%d accesses, all with {%s} held", len(accs), common.names(p)), true)
+		}
+	}
+	if n == 0 && !bad {
+		c.R.Hold("R-GUARD/lockset", "-", "", "lockset discipline", "no untabled field is written under a mutex", false)
+	}
+}
+
+// locksetExceptions: fields for which the common-mutex rule does not apply, with the reason.
+var locksetExceptions = map[string]string{}
+
+// ownerHasMutex: the struct that declares fv also has a sync.Mutex / RWMutex
+// field (embedded or named) - an object that carries its own lock.
+func ownerHasMutex(fv *types.Var) bool {
+	if fv.Pkg() == nil {
+		return false
+	}
+	scope := fv.Pkg().Scope()
+	for _, name := range scope.Names() {
+		tn, ok := scope.Lookup(name).(*types.TypeName)
+		if !ok {
+			continue
+		}
+		st, ok := tn.Type().Underlying().(*types.Struct)
+		if !ok {
+			continue
+		}
+		owns, hasMu := false, false
+		for i := 0; i < st.NumFields(); i++ {
+			f := st.Field(i)
+			if f == fv {
+				owns = true
+			}
+			if t := f.Type().String(); t == "sync.Mutex" || t == "sync.RWMutex" {
+				hasMu = true
+			}
+		}
+		if owns {
+			return hasMu
+		}
+	}
+	return false
+}
